@@ -15,6 +15,47 @@ MC_CFG = {
 }
 
 
+GEN_CFG = {k: (q.replace("MC_", "Gen_"), t.replace("MC_", "Gen_")) for k, (q, t) in MC_CFG.items()}
+VEH = {"height": [3, "meters"], "width": [8, "feet"], "total_length": [400, "inches"], "trailer_length": [5, "meters"],
+       "total_weight": [10, "tons"], "number_of_axles": 3}
+
+
+def from_tlc(scn):
+    """A scenario record exported by TLC (MC_Search!Emit) -> a harness scenario. The heuristic is scripted (any
+    function of the vertex, consistent or not): the traversal decorator adds h[v] metres to the estimate."""
+    ne = len(scn["E"])
+    h = scn["h"]
+    astar = any(x != 0 for x in h)
+    okv = scn["ok"]
+    return {
+        "profile": "exact", "nv": scn["nv"], "xy": [[i, 0] for i in range(scn["nv"])], "E": scn["E"], "hd": scn["hd"],
+        "src": scn["src"], "dst": scn["dst"], "dir": scn["dir"], "alg": "astar" if astar else "dijkstra", "wf": 1000 if astar else 0,
+        "wf_src": "alg", "model": "speed" if ne > 0 else "distance", "wd": scn["wd"], "wt": scn["wt"], "rd": scn["rd"], "rt": scn["rt"], "sur": scn["sur"],
+        "acc": scn["acc"], "delay": scn["delay"], "bad": [list(p) for p in scn["bad"]], "force_turn_model": bool(scn["bad"]),
+        "itl": scn["itl"], "szl": scn["szl"], "init": scn["init"],
+        "units": {"distance": "meters", "time": "seconds", "speed": "mps", "delay": "seconds"},
+        "cls": [0 if o else 1 for o in okv] if not all(okv) else [], "allowed_on": not all(okv), "allowed": [0] if not all(okv) else [],
+        "allowed_query": [0] if not all(okv) else None,
+        # the estimate is wf x wd x rd x hscript: h is given in milli-cost, so it only applies to pure distance cost
+        "est_mode": "script", "hscript": [x / 1000.0 / max(1, scn["wd"] * scn["rd"]) for x in h],
+        "orient": "vertex", "osrc": 0, "odst": 0, "cost_src": "config",
+        "veh_on": False, "vrestr": [[] for _ in range(ne)], "veh": VEH,
+    }
+
+
+def tlc_scenarios(ctx, want):
+    """Scenarios enumerated by TLC from the property's own model configuration (spec -> impl direction)."""
+    q, t = GEN_CFG[ctx.pid]
+    raw = ctx.gen("MC_Search", q if ctx.tier == "quick" else t, timeout=3000)
+    # the scripted heuristic is exact only for distance-only cost; keep the others with h = 0
+    raw = [r for r in raw if (r["wt"] == 0 and r["wd"] * r["rd"] >= 1) or all(x == 0 for x in r["h"])]
+    ctx.extra["tlc_exported_scenarios"] = len(raw)
+    if len(raw) > want:
+        step = len(raw) // want
+        raw = raw[ctx.seed % step::step]
+    return [from_tlc(r) for r in raw]
+
+
 def pinned(ctx, check):
     return [f for f in ctx.findings if f.get("scenario", {}).get("check") == check]
 
@@ -52,6 +93,8 @@ def run_family(ctx, n_quick, n_thorough, maxv_quick=9, maxv_thorough=14):
     # pinned scenarios of known findings (open: must be explained by the named deviation; fixed: must pass)
     pins = pinned(ctx, "search")
     scns += run_harness_scenarios(ctx, "search", [p["scenario"] for p in pins])
+    # the exhaustive small scope of the model, replayed into the code (stride sample in the quick tier)
+    scns += run_harness_scenarios(ctx, "search", tlc_scenarios(ctx, 2500 if quick else 60000))
     # seeded random scenarios biased towards this property
     n = n_quick if quick else n_thorough
     out = ctx.harness(["search", "--random", str(n), "--maxv", str(maxv_quick if quick else maxv_thorough),
